@@ -15,12 +15,14 @@ NAMES = ['x', 'y']
 
 
 class Conc(object):
-    def __init__(self, p, variant=0, taint=False, names=None, imports=False, heavy=(), listcomp=False):
+    def __init__(self, p, variant=0, taint=False, names=None, imports=False, heavy=(), listcomp=False, store=None, witness=False):
         self.p = p
         self.par, self.kind, self.uses = p['par'], p['kind'], p['uses']
         self.n = len(self.par)
         self.names = [nm for nm in NAMES if nm in self.uses[0]]
         self.cn = dict(CONCRETE)
+        self.cn['w'] = 'ww'
+        self.witness = witness      # every function body and the module also bind and read a name of their own (`w`): something that can be renamed in every program
         if names:
             self.cn.update(names)
         self.kids = {s: [c for c in range(2, self.n + 1) if self.par[c - 1] == s] for s in range(1, self.n + 1)}
@@ -31,6 +33,11 @@ class Conc(object):
         self.variant = variant
         self.taint = taint
         self.imports = imports      # stores in statement scopes are spelled `import name` (an alias-less import is expensive to rename)
+        # how a store in a statement scope is spelled: assign `n = T`, import, ann `n: int = T` (rebuilt by annotation removal), for `for n in [T]: pass`,
+        # with `with emit.ctx(T) as n: pass`, tuple `n, emit.k = T, 0`
+        self.store = store or ('import' if imports else 'assign')
+        if self.store == 'import':
+            self.imports = True
         self.import_tags = []
         self.listcomp = listcomp    # comprehensions are written as list comprehensions (inlined on CPython >= 3.12, PEP 709) instead of generator expressions
         self.heavy = set(heavy)     # names whose loads are written three times (changes the order in which the assigner processes bindings)
@@ -107,6 +114,14 @@ class Conc(object):
                     if self.imports:
                         self.import_tags.append(int(self.T(s, nm, 'store')))
                         r.append(pad + 'import %s' % self.cn[nm])
+                    elif self.store == 'ann':
+                        r.append(pad + '%s: int = %s' % (self.cn[nm], self.T(s, nm, 'store')))
+                    elif self.store == 'for':
+                        r.append(pad + 'for %s in [%s]: pass' % (self.cn[nm], self.T(s, nm, 'store')))
+                    elif self.store == 'with':
+                        r.append(pad + 'with emit.ctx(%s) as %s: pass' % (self.T(s, nm, 'store'), self.cn[nm]))
+                    elif self.store == 'tuple':
+                        r.append(pad + '%s, emit.k = %s, 0' % (self.cn[nm], self.T(s, nm, 'store')))
                     else:
                         r.append(pad + '%s = %s' % (self.cn[nm], self.T(s, nm, 'store')))
             return r
@@ -114,6 +129,9 @@ class Conc(object):
             out += stores() + loads()
         else:
             out += loads() + stores()
+        if self.witness and (s == 1 or self.kind[s - 1] == 'f'):
+            out.append(pad + '%s = %s' % (self.cn['w'], self.T(s, 'w', 'store')))
+            out.append(pad + 'emit(%s, %s)' % (self.T(s, 'w', 'load'), self.cn['w']))
         if s == 1 and self.taint:
             out.append(pad + "emit(-7, eval('1'))")
         for c in self.kids[s]:
@@ -161,6 +179,16 @@ def read_back(out_src, conc):
             found[node.args[0].value] = node.args[1].id
         elif isinstance(node, ast.Assign) and isinstance(node.value, ast.Constant) and len(node.targets) == 1 and isinstance(node.targets[0], ast.Name):
             found[node.value.value] = node.targets[0].id
+        elif isinstance(node, ast.AnnAssign) and isinstance(node.value, ast.Constant) and isinstance(node.target, ast.Name):
+            found[node.value.value] = node.target.id
+        elif isinstance(node, ast.For) and isinstance(node.iter, ast.List) and node.iter.elts and isinstance(node.iter.elts[0], ast.Constant) and isinstance(node.target, ast.Name):
+            found[node.iter.elts[0].value] = node.target.id
+        elif isinstance(node, ast.With) and len(node.items) == 1 and isinstance(node.items[0].context_expr, ast.Call) and node.items[0].context_expr.args \
+                and isinstance(node.items[0].context_expr.args[0], ast.Constant) and isinstance(node.items[0].optional_vars, ast.Name):
+            found[node.items[0].context_expr.args[0].value] = node.items[0].optional_vars.id
+        elif isinstance(node, ast.Assign) and len(node.targets) == 1 and isinstance(node.targets[0], ast.Tuple) and isinstance(node.value, ast.Tuple) \
+                and node.value.elts and isinstance(node.value.elts[0], ast.Constant) and isinstance(node.targets[0].elts[0], ast.Name):
+            found[node.value.elts[0].value] = node.targets[0].elts[0].id
         elif isinstance(node, ast.NamedExpr) and isinstance(node.value, ast.Constant):
             found[node.value.value] = node.target.id
         elif isinstance(node, ast.comprehension) and isinstance(node.iter, ast.List) and node.iter.elts and isinstance(node.iter.elts[0], ast.Constant) \
@@ -241,6 +269,12 @@ def run_logged(src):
         log.append((tag, value if isinstance(value, int) else 0))
         return value
     emit.k = 0
+    import contextlib
+
+    @contextlib.contextmanager
+    def ctx(v):
+        yield v
+    emit.ctx = ctx
     ns = {'emit': emit, '__name__': 'scopeprog'}
     import types
     fake = [n for n in ('xx', 'yy', 'A', 'B') if n not in sys.modules]
@@ -261,7 +295,7 @@ def observe(job):
     """job: {id, p, variant, opts: {rl, rg, taint, presL, presG}}.  Returns the Trace_Rename observation record (or a skip marker)."""
     import python_minifier
     o = job['opts']
-    conc = Conc(job['p'], variant=job.get('variant', 0), taint=o.get('taint', False), names=job.get('names'), imports=job.get('imports', False), heavy=job.get('heavy', ()), listcomp=job.get('listcomp', False))
+    conc = Conc(job['p'], variant=job.get('variant', 0), taint=o.get('taint', False), names=job.get('names'), imports=job.get('imports', False), heavy=job.get('heavy', ()), listcomp=job.get('listcomp', False), store=job.get('store'), witness=job.get('witness', False))
     src = conc.src
     try:
         compile(src, 'in', 'exec')
@@ -270,9 +304,14 @@ def observe(job):
     helpers = sorted(set(conc.helpers + ['NameError', 'eval']))
     pl = list(helpers) + [conc.cn[n] for n in o.get('presL', [])]
     pg = list(helpers) + [conc.cn[n] for n in o.get('presG', [])]
+    extra = {}
+    if conc.store == 'ann':
+        # every kind of annotation removal on, so that the annotated assignments are rebuilt as plain ones (also in class bodies)
+        from python_minifier.transforms.remove_annotations_options import RemoveAnnotationsOptions
+        extra['remove_annotations'] = RemoveAnnotationsOptions(True, True, True, True)
     try:
         out = python_minifier.minify(src, rename_locals=o['rl'], rename_globals=o['rg'], preserve_locals=pl, preserve_globals=pg,
-                                     hoist_literals=False, constant_folding=False, remove_pass=False, combine_imports=False)
+                                     hoist_literals=False, constant_folding=False, remove_pass=False, combine_imports=False, **extra)
     except BaseException as e:  # noqa
         return {'id': job['id'], 'skip': 'minify-raised', 'src': src, 'msg': type(e).__name__ + ': ' + str(e)[:100]}
     try:
@@ -305,4 +344,8 @@ def observe(job):
            'alias': [{'scope': a['scope'], 'new': inv.get(a['new'], a['new']), 'old': inv.get(a['old'], a['old'])} for a in aliases],
            'decl': [{'scope': d['scope'], 'name': d['name'], 'how': d['how'], 'out': inv.get(n2, n2)} for d, n2 in zip(conc.decl, decl_out)],
            'src': src, 'out_src': out}
+    # names of the program that are spelled like a taint trigger (eval, exec, ...): Trace_Rename.tla decides whether one of them reaches the builtin
+    trig = [k for k, v in conc.cn.items() if v in ('eval', 'exec', 'locals', 'globals', 'vars')]
+    if trig:
+        rec['trigger_names'] = sorted(trig)
     return rec
